@@ -152,9 +152,6 @@ theorem parse_differ_of_no_digit (s : Str) (d : Dec) (hs : scanDec s = some d) (
 
 /-! ### group-by bucket: records and Sum cell in closed form -/
 
-/-- in the group-by bucket no string is a number -/
-def noParse : Str → Option Rat := fun _ => none
-
 def rbSum (ns : List Num) : CV := if ns.isEmpty then .backfill else (sumSpec ns).toCV
 
 theorem absIntSum_snoc_lt (ns : List Num) (x : Option Num) (h : absIntSum (ns ++ x.toList) < 9223372036854775808) :
@@ -209,51 +206,76 @@ theorem sumStep_nonnum (ns : List Num) (e : CV) (he : e = .backfill ∨ ∃ s, e
   have := rbSum_ne_invalid ns
   rcases he with rfl | ⟨s, rfl⟩ <;> cases h : rbSum ns <;> simp_all [sumStep]
 
-/-- the bucket after any list: all records counted, Sum cell = the mathematical sum of the int / float values
-(while the integer part cannot wrap) -/
-theorem foldRB_sum (vs : List Val) (h : absIntSum (nums noParse vs) < 9223372036854775808) :
-    (vs = [] ∧ foldRB exact vs = none) ∨
-    (∃ b, foldRB exact vs = some b ∧ b.n = vs.length ∧ vs ≠ [] ∧ b.sum = rbSum (nums noParse vs) ∧
-      b.nc = (nums noParse vs).length) := by
+/-- the bucket after any list, for EVERY string rule `parse`: all records counted, Sum cell = the mathematical sum of the
+values that are numbers under the rule (while the integer part cannot wrap), numeric count = how many there are, Count cell
+= the records that have a value -/
+theorem foldRBWith_sum (parse : Str → Option Rat) (vs : List Val) (h : absIntSum (nums parse vs) < 9223372036854775808) :
+    (vs = [] ∧ foldRBWith parse exact vs = none) ∨
+    (∃ b, foldRBWith parse exact vs = some b ∧ b.n = vs.length ∧ vs ≠ [] ∧ b.sum = rbSum (nums parse vs) ∧
+      b.nc = (nums parse vs).length ∧ b.cx = present vs) := by
   induction vs using snocInd with
   | nil => left; exact ⟨rfl, rfl⟩
   | append_singleton vs v ih =>
     right
-    have hstep : foldRB exact (vs ++ [v]) = stepRB exact (foldRB exact vs) v := by simp [foldRB, List.foldl_append]
+    have hstep : foldRBWith parse exact (vs ++ [v]) = stepRBWith parse exact (foldRBWith parse exact vs) v := by
+      simp [foldRBWith, List.foldl_append]
     rw [nums_snoc] at h
     have hprev := absIntSum_snoc_lt _ _ h
     rw [hstep]
-    have hsum : ∀ s0 : CV, s0 = rbSum (nums noParse vs) → sumStep exact s0 v.toCV = rbSum (nums noParse (vs ++ [v])) := by
+    have hsum : ∀ s0 : CV, s0 = rbSum (nums parse vs) → sumStep exact s0 (v.toCVWith parse) = rbSum (nums parse (vs ++ [v])) := by
       intro s0 hs0
       subst hs0
       rw [nums_snoc]
       cases v with
-      | absent => simpa [numOf, Val.toCV] using sumStep_nonnum _ .backfill (Or.inl rfl)
-      | int i => simpa [numOf, Val.toCV] using sumSpec_snoc_int _ i (by simpa [numOf] using h)
-      | flt f => simpa [numOf, Val.toCV] using sumSpec_snoc_flt _ f hprev
-      | str s => simpa [numOf, Val.toCV, noParse] using sumStep_nonnum _ (.str s) (Or.inr ⟨s, rfl⟩)
-    have hnc : ∀ k : Nat, k = (nums noParse vs).length →
-        k + (if v.toCV.isNumeric then 1 else 0) = (nums noParse (vs ++ [v])).length := by
+      | absent => simpa [numOf, Val.toCVWith] using sumStep_nonnum _ .backfill (Or.inl rfl)
+      | int i => simpa [numOf, Val.toCVWith] using sumSpec_snoc_int _ i (by simpa [numOf] using h)
+      | flt f => simpa [numOf, Val.toCVWith] using sumSpec_snoc_flt _ f hprev
+      | str s =>
+        cases hp : parse s with
+        | none => simpa [numOf, Val.toCVWith, hp] using sumStep_nonnum _ (.str s) (Or.inr ⟨s, rfl⟩)
+        | some q => simpa [numOf, Val.toCVWith, hp] using sumSpec_snoc_flt _ q hprev
+    have hnc : ∀ k : Nat, k = (nums parse vs).length →
+        k + (if (v.toCVWith parse).isNumeric then 1 else 0) = (nums parse (vs ++ [v])).length := by
       intro k hk
       subst hk
       rw [nums_snoc]
-      cases v <;> simp [numOf, Val.toCV, CV.isNumeric, noParse]
-    rcases ih hprev with ⟨hnil, hnone⟩ | ⟨b, hb, hn, _, hs, hc⟩
+      cases v with
+      | str s => cases hp : parse s <;> simp [numOf, Val.toCVWith, CV.isNumeric, hp]
+      | _ => simp [numOf, Val.toCVWith, CV.isNumeric]
+    have hcx : ∀ k : Nat, k = present vs → k + (if v.isAbsent then 0 else 1) = present (vs ++ [v]) := by
+      intro k hk
+      subst hk
+      rw [present_snoc]
+      cases v <;> simp [Val.isAbsent, isPresent]
+    rcases ih hprev with ⟨hnil, hnone⟩ | ⟨b, hb, hn, _, hs, hc, hx⟩
     · subst hnil
       rw [hnone]
-      refine ⟨_, rfl, by simp [newRB], by simp, ?_, ?_⟩
+      refine ⟨_, rfl, by simp [newRB], by simp, ?_, ?_, ?_⟩
       · have := hsum .backfill (by simp [rbSum])
         simp only [Option.getD, newRB]
         rw [← this]
-        cases v <;> simp [sumStep, Val.toCV]
+        cases v with
+        | str s => cases hp : parse s <;> simp [sumStep, Val.toCVWith, hp]
+        | _ => simp [sumStep, Val.toCVWith]
       · simp only [Option.getD, newRB]
         exact hnc 0 (by simp)
+      · simp only [Option.getD, newRB]
+        exact hcx 0 (by simp)
     · rw [hb]
-      refine ⟨_, rfl, by simp [hn], by simp, ?_, ?_⟩
+      refine ⟨_, rfl, by simp [hn], by simp, ?_, ?_, ?_⟩
       · simp only [Option.getD]
         exact hsum b.sum hs
       · simp only [Option.getD]
         exact hnc b.nc hc
+      · simp only [Option.getD]
+        exact hcx b.cx hx
+
+/-- the bucket as fixed: the string rule is FastParseFloat -/
+theorem foldRB_sum (vs : List Val) (h : absIntSum (nums (parseFast exact) vs) < 9223372036854775808) :
+    (vs = [] ∧ foldRB exact vs = none) ∨
+    (∃ b, foldRB exact vs = some b ∧ b.n = vs.length ∧ vs ≠ [] ∧ b.sum = rbSum (nums (parseFast exact) vs) ∧
+      b.nc = (nums (parseFast exact) vs).length ∧ b.cx = present vs) :=
+  foldRBWith_sum (parseFast exact) vs h
 
 theorem sumStep_toCV (x y : Num) : sumStep exact x.toCV y.toCV = (addSum exact x y).toCV := by
   cases x <;> cases y <;> simp [sumStep, addSum, Num.toCV]
@@ -281,23 +303,31 @@ theorem sumStep_rbSum (nx ny : List Num) (h : absIntSum (nx ++ ny) < 92233720368
       simp only [ex, ey, e3, Bool.false_eq_true, if_false]
       rw [sumStep_toCV, addSum_sumSpec nx ny h]
 
-/-- bucket merge: record counts and numeric counts add up, Sum cells merge to the Sum cell of the concatenation — every pair of lists -/
-theorem mergeRB_n_sum (xs ys : List Val) (h : absIntSum (nums noParse (xs ++ ys)) < 9223372036854775808) :
-    (mergeRB exact (foldRB exact xs) (foldRB exact ys)).map (fun b => (b.n, b.sum, b.nc)) =
-      (foldRB exact (xs ++ ys)).map (fun b => (b.n, b.sum, b.nc)) := by
-  have hx : absIntSum (nums noParse xs) < 9223372036854775808 := by
+/-- bucket merge: record counts, numeric counts and Count cells add up, Sum cells merge to the Sum cell of the
+concatenation — every pair of lists, every string rule -/
+theorem mergeRBWith_n_sum (parse : Str → Option Rat) (xs ys : List Val)
+    (h : absIntSum (nums parse (xs ++ ys)) < 9223372036854775808) :
+    (mergeRB exact (foldRBWith parse exact xs) (foldRBWith parse exact ys)).map (fun b => (b.n, b.sum, b.nc, b.cx)) =
+      (foldRBWith parse exact (xs ++ ys)).map (fun b => (b.n, b.sum, b.nc, b.cx)) := by
+  have hx : absIntSum (nums parse xs) < 9223372036854775808 := by
     rw [nums_append, absIntSum_append] at h; omega
-  have hy : absIntSum (nums noParse ys) < 9223372036854775808 := by
+  have hy : absIntSum (nums parse ys) < 9223372036854775808 := by
     rw [nums_append, absIntSum_append] at h; omega
-  rcases foldRB_sum xs hx with ⟨rfl, hxn⟩ | ⟨a, ha, han, hxne, has, hac⟩
+  rcases foldRBWith_sum parse xs hx with ⟨rfl, hxn⟩ | ⟨a, ha, han, hxne, has, hac, hax⟩
   · rw [hxn]; simp [mergeRB]
-  · rcases foldRB_sum ys hy with ⟨rfl, hyn⟩ | ⟨b, hb, hbn, hyne, hbs, hbc⟩
+  · rcases foldRBWith_sum parse ys hy with ⟨rfl, hyn⟩ | ⟨b, hb, hbn, hyne, hbs, hbc, hbx⟩
     · rw [hyn, ha]; simp [mergeRB, ha]
-    · rcases foldRB_sum (xs ++ ys) h with ⟨hnil, _⟩ | ⟨c, hc, hcn, _, hcs, hcc⟩
+    · rcases foldRBWith_sum parse (xs ++ ys) h with ⟨hnil, _⟩ | ⟨c, hc, hcn, _, hcs, hcc, hcx⟩
       · exact absurd (List.append_eq_nil_iff.mp hnil).1 hxne
       · rw [ha, hb, hc]
         rw [nums_append] at h hcs hcc
         simp only [mergeRB, Option.map]
-        rw [han, hbn, hcn, has, hbs, hcs, hac, hbc, hcc, sumStep_rbSum _ _ h, List.length_append, List.length_append]
+        rw [han, hbn, hcn, has, hbs, hcs, hac, hbc, hcc, hax, hbx, hcx, sumStep_rbSum _ _ h, List.length_append,
+          List.length_append, present_append]
+
+theorem mergeRB_n_sum (xs ys : List Val) (h : absIntSum (nums (parseFast exact) (xs ++ ys)) < 9223372036854775808) :
+    (mergeRB exact (foldRB exact xs) (foldRB exact ys)).map (fun b => (b.n, b.sum, b.nc, b.cx)) =
+      (foldRB exact (xs ++ ys)).map (fun b => (b.n, b.sum, b.nc, b.cx)) :=
+  mergeRBWith_n_sum (parseFast exact) xs ys h
 
 end SigModel.Stats
